@@ -173,6 +173,42 @@ def _mentions(o, local):
     return False
 
 
+def _err_preserving_sink(caller, bidx, d, depth):
+    """local d (a Result) is consumed in block bidx by Result::map / map_err whose result is the caller's return value or goes to `?`
+    (possibly through further map / map_err): an Err stays an Err and ends the caller"""
+    if depth == 0 or not isinstance(bidx, int):
+        return False
+    blk = caller['blocks'][bidx]
+    for st in blk['stmts']:
+        if _mentions(st, d):
+            if st['k'] == 'assign' and st['p']['l'] == 0 and not st['p']['p'] and st['rv']['k'] == 'use' and st['rv']['op'].get('k') == 'move' and \
+                    st['rv']['op']['p']['l'] == d and not st['rv']['op']['p']['p']:
+                return True
+            return False
+    tt = blk['term']
+    if not tt or tt['k'] != 'call' or not tt.get('fn'):
+        return False
+    orig = tt['fn'].get('orig', '')
+    a0 = tt['args'][0] if tt['args'] else {}
+    if a0.get('k') != 'move' or a0.get('p', {}).get('l') != d or a0['p']['p']:
+        return False
+    if orig.endswith('Try::branch') and len(tt['args']) == 1:
+        return True
+    if 'result::Result' in orig and orig.split('::')[-1] in ('map', 'map_err') and not tt['dest']['p']:
+        d2 = tt['dest']['l']
+        if d2 == 0:
+            return True
+        # the mapped value must not be looked at anywhere but in the next consumer
+        nxt = tt.get('target')
+        for i2, b2 in enumerate(caller['blocks']):
+            if i2 == nxt or b2 is blk:
+                continue
+            if any(_mentions(st, d2) for st in b2['stmts']) or (b2['term'] is not None and _mentions({k: v for k, v in b2['term'].items() if k != 'fn'}, d2)):
+                return False
+        return _err_preserving_sink(caller, nxt, d2, depth - 1)
+    return False
+
+
 def _splice(caller, bi, helper):
     blk = caller['blocks'][bi]
     t = blk['term']
@@ -207,6 +243,10 @@ def _splice(caller, bi, helper):
                 uses_elsewhere = True
         if tt and tt['k'] == 'call' and tt.get('fn') and tt['fn'].get('orig', '').endswith('Try::branch') and len(tt['args']) == 1 and \
                 tt['args'][0].get('p', {}).get('l') == d and not uses_elsewhere:
+            caller['locals'][loff]['err_exit'] = True
+        elif not uses_elsewhere and _err_preserving_sink(caller, t['target'], d, 4):
+            # `helper(..).map(f)` / `.map_err(g)` handed on as the function's own result (or to a `?`): an Err of the helper is an Err of
+            # the caller just the same
             caller['locals'][loff]['err_exit'] = True
     span = t.get('span')
     for k, arg in enumerate(t['args']):
